@@ -517,7 +517,7 @@ pub fn run(run: &mut Run) {
         );
         (run.threads, run.max_shrink_iters) = saved;
         run.require_class("language_server_statistics_file", "config_change_between_records", (n / 4) as u64);
-        run.require_class("language_server_statistics_file", "two_sessions", (n / 3) as u64);
+        run.require_class("language_server_statistics_file", "two_sessions", (n / 4) as u64);
     } else {
         run.infra_problems.push("harper-ls binary not built: language_server_statistics_file skipped".into());
     }
